@@ -23,6 +23,9 @@ type c04WriteCase struct {
 	// Foreign: the list carries metadata of other formats; the file-level helper is exercised as well
 	Foreign bool   `json:"foreign,omitempty"`
 	Doc     ssaDoc `json:"doc"`
+	// OddKeys: the style map is keyed by something else than the style names (a list put together by hand): a style is
+	// what its ID says
+	OddKeys bool `json:"odd_keys,omitempty"`
 }
 
 func init() {
@@ -94,6 +97,13 @@ func checkC04Read(c c04ReadCase) string {
 
 func checkC04Write(c c04WriteCase) string {
 	s := toSubtitlesSSA(c.Doc)
+	if c.OddKeys {
+		m := map[string]*astisub.Style{}
+		for id, st := range s.Styles {
+			m["key-of-"+id] = st
+		}
+		s.Styles = m
+	}
 	if c.Foreign {
 		addForeignMetadata("ssa", s)
 		addForeignAttributes("ssa", s)
@@ -285,8 +295,11 @@ func TestC04(t *testing.T) {
 	rapidCheck(t, "C04/write", tier(2000, 200000), func(rt *rapid.T) {
 		doc, _ := genSSADoc(rt, true)
 		addEmptySSALines(rt, &doc)
-		c := c04WriteCase{Doc: doc, Foreign: rapid.IntRange(0, 2).Draw(rt, "foreign") == 0}
+		c := c04WriteCase{Doc: doc, Foreign: rapid.IntRange(0, 2).Draw(rt, "foreign") == 0, OddKeys: rapid.IntRange(0, 4).Draw(rt, "oddkeys") == 0}
 		nt, ls := c04Labels(c.Doc, nil)
+		if c.OddKeys && len(c.Doc.Styles) > 0 {
+			ls = append(ls, "style-map-keyed-by-something-else-than-the-names")
+		}
 		ev.Case(nt, fmt.Sprintf("w%v", c), append(ls, "write")...)
 		if nt && len(c.Doc.Events) <= 2 {
 			ev.Sample("write", c.Doc)
